@@ -19,6 +19,31 @@ Proof. unfold cb_resize. destruct (n <=? cb_cap b) eqn:E; simpl; [apply Z.leb_le
 Lemma cb_resize_keeps b n nc : n <= cb_cap b -> cb_cap (cb_resize b n nc) = cb_cap b.
 Proof. intros H. unfold cb_resize. apply Z.leb_le in H. rewrite H. reflexivity. Qed.
 
+(* an uninitialised resize that reserves from len keeps rows <= capacity, whatever std chooses ... *)
+Lemma cb_resize_uninit_fits b n nc :
+  0 <= cb_rows b <= cb_cap b -> 0 <= n ->
+  cb_rows (cb_resize_uninit b n nc) <= cb_cap (cb_resize_uninit b n nc).
+Proof.
+  intros Hb Hn. unfold cb_resize_uninit, cb_reserve. cbn [cb_rows].
+  destruct (cb_cap b <? n) eqn:E.
+  - apply Z.ltb_lt in E. destruct (cb_rows b + (n - cb_rows b) <=? cb_cap b) eqn:E2; cbn [cb_cap].
+    + apply Z.leb_le in E2. lia.
+    + etransitivity; [|apply Z.le_max_l]. lia.
+  - apply Z.ltb_ge in E. cbn [cb_cap]. lia.
+Qed.
+
+(* ... the seeded one (reserve(rows - capacity)) does not, as soon as the buffer has slack (len < capacity) and
+   the request exceeds the capacity by no more than the slack: rows N, fewer, more than N *)
+Lemma cb_resize_uninit_seeded_overflows b n nc :
+  0 <= cb_rows b < cb_cap b -> cb_cap b < n <= cb_cap b + (cb_cap b - cb_rows b) ->
+  cb_cap (cb_resize_uninit_seeded b n nc) < cb_rows (cb_resize_uninit_seeded b n nc).
+Proof.
+  intros Hb Hn. unfold cb_resize_uninit_seeded, cb_reserve. cbn [cb_rows].
+  assert (E : (cb_cap b <? n) = true) by (apply Z.ltb_lt; lia). rewrite E.
+  assert (E2 : (cb_rows b + (n - cb_cap b) <=? cb_cap b) = true) by (apply Z.leb_le; lia). rewrite E2.
+  cbn [cb_cap cb_rows]. lia.
+Qed.
+
 Lemma cb_clone_exact b : cb_cap (cb_clone b) = cb_rows (cb_clone b) /\ cb_rows (cb_clone b) = cb_rows b.
 Proof. split; reflexivity. Qed.
 
